@@ -35,6 +35,7 @@ pub fn verify_oods<Layout: LayoutTrait>(
 ) -> (r: Result<(), OodsVerifyError>)
     requires
         constraint_coefficients@.len() == Layout::N_CONSTRAINTS, // [C16,C18:verify-oods-one-coefficient-per-constraint]
+        Layout::composition_pre(public_input, trace_domain_size@), // [C18:verify-oods-after-public-input-validation]
     ensures
         r.is_ok() ==> oods@.len() == Layout::MASK_SIZE + Layout::CONSTRAINT_DEGREE, // [C01,C02:oods-vector-has-exactly-MASK_SIZE+DEGREE-values]
         r.is_ok() ==> oods_consistent::<Layout>(fv(oods@), interaction_elements, public_input, fv(constraint_coefficients@), oods_point@, trace_domain_size@, trace_generator@), // [C01:composition-from-trace-equals-claimed-composition-at-the-positions-DEEP-reads]
